@@ -84,6 +84,13 @@ impl PeerIo for TlsPeer {
             }
         }
     }
+    async fn half_close(&mut self) {
+        if let Some(s) = self.stream.as_mut() {
+            // close_notify alert only; the TCP connection stays open in both directions
+            s.get_mut().1.send_close_notify();
+            let _ = s.flush().await;
+        }
+    }
 }
 
 pub fn tls_acceptor(server_cert: &str, server_key: &str) -> TlsAcceptor {
@@ -202,6 +209,10 @@ impl PeerIo for SshPeer {
             let _ = self.handle.eof(self.channel).await;
             let _ = self.handle.close(self.channel).await;
         }
+    }
+    async fn half_close(&mut self) {
+        // SSH_MSG_CHANNEL_EOF only (RFC 4254 5.3: the channel remains open)
+        let _ = self.handle.eof(self.channel).await;
     }
 }
 
